@@ -6,12 +6,4 @@ ENGINES = [
 ]
 NOTES = ("All checks rebuild what they need from /repo's working tree through bin/vbuild.py (content-hash object cache under /verif/.cache). "
          "Exit 2 = could not decide (build failure on a changed tree or too few non-trivial cases). Known findings: /verif/known_findings.json.")
-DET_NOTE = ("trusted: the scheduler runtime engine/vs/vs_rt.cpp (futex/thread model, TSO sub-model), the harness oracle, g++; sampled schedules at atomic-operation "
-            "granularity only; no behaviour weaker than x86-TSO; oneTBB assertion failures in the cs-dbg flavour are reported as violations")
-TEXT = {
-    "C08": dict(
-        technique="property-based testing: generated lock programs x generated schedules (controlled scheduler, SC+TSO) against a holder-bookkeeping / FIFO / never-blocks oracle, with choice-sequence shrinking",
-        level_text="Exploration: thousands of generated lock programs (all eight mutex types, try/upgrade/downgrade, scoped and native API) each under several generated schedules incl. directed stalls and TSO store buffers; every entry/exit is checked against exact holder bookkeeping, upgrade truthfulness against a writer epoch, queue order against invocation/queued stamps, try_* in solo mode, and lost hand-off as an exact DEADLOCK/SPIN-FIXPOINT state. Sampling cannot prove absence, but the scenarios are 50-400 decision points long so random schedules cover a large share of interleavings.",
-        level_note=DET_NOTE),
-}
 NOT_APPLICABLE = {}
